@@ -495,8 +495,8 @@ class PathLossIndoorBase(PathLossBase):
         pl = conversion.dB2Linear(-self.calc_path_loss_dB(d, **kargs))
         return pl
 
-    def which_distance(self,
-                       pl: NumberOrArray) -> NumberOrArray:  # pragma: no cover
+    def which_distance(self, pl: NumberOrArray,
+                       **kargs: Any) -> NumberOrArray:  # pragma: no cover
         """
         Calculates the required distance (in meters) to achieve the
         given path loss. It is the inverse of the calc_path_loss function.
@@ -505,13 +505,15 @@ class PathLossIndoorBase(PathLossBase):
         ----------
         pl : float | np.ndarray
             Path loss (in linear scale).
+        kargs : dict
+            Additional keywords that might be necessary in a subclass.
 
         Returns
         -------
         d : float | np.ndarray
             Distance(s) that will yield the path loss `pl`.
         """
-        d = self.which_distance_dB(-conversion.linear2dB(pl))
+        d = self.which_distance_dB(-conversion.linear2dB(pl), **kargs)
         return d
 
 
@@ -1314,9 +1316,94 @@ class PathLossMetisPS7(PathLossIndoorBase):
         pl_dB = A * log10(d) + B + C * log10(fc_GHz / 5.) + X
         return cast(NumberOrArray, pl_dB)
 
-    def which_distance_dB(
-            self, PL: NumberOrArray) -> NumberOrArray:  # pragma: nocover
-        pass
+    def which_distance_dB(self,
+                          PL: NumberOrArray,
+                          num_walls: int = 0) -> NumberOrArray:
+        """
+        Calculates the distance (in meters) that yields the given path loss
+        (in dB) when there are `num_walls` walls between the transmitter
+        and the receiver (same floor).
+
+        It is the inverse of the calc_path_loss_dB function (for the same
+        value of `num_walls`).
+
+        Parameters
+        ----------
+        PL : float | np.ndarray
+            Path Loss (in dB)
+        num_walls : int
+            Number of walls between the transmitter and the receiver. LOS
+            is used if it is 0 and NLOS is used if it is greater than zero.
+
+        Returns
+        -------
+        d : float | np.ndarray
+            Distance (in meters) that yields the path loss `PL`.
+        """
+        if num_walls == 0:
+            d = self._which_distance_dB_LOS_same_floor(PL)
+        elif num_walls > 0:
+            d = self._which_distance_dB_NLOS_same_floor(PL, num_walls)
+        else:
+            raise ValueError("num_walls cannot be negative")
+        return d
+
+    def _which_distance_dB_LOS_same_floor(self,
+                                          PL: NumberOrArray) -> NumberOrArray:
+        """
+        Inverse of :meth:`_calc_PS7_path_loss_dB_LOS_same_floor`.
+
+        Parameters
+        ----------
+        PL : float | np.ndarray
+            Path Loss (in dB)
+
+        Returns
+        -------
+        d : float | np.ndarray
+            Distance (in meters).
+        """
+        # LOS parameters
+        A = 18.7
+        B = 46.8
+        C = 20
+
+        # self.fc is in MHz
+        fc_GHz = self.fc / 1e3
+
+        d = 10.**((PL - B - C * math.log10(fc_GHz / 5.)) / A)
+        return d
+
+    def _which_distance_dB_NLOS_same_floor(self,
+                                           PL: NumberOrArray,
+                                           num_walls: int = 1
+                                           ) -> NumberOrArray:
+        """
+        Inverse of :meth:`_calc_PS7_path_loss_dB_NLOS_same_floor`.
+
+        Parameters
+        ----------
+        PL : float | np.ndarray
+            Path Loss (in dB)
+        num_walls : int
+            Number of walls between the transmitter and the receiver.
+
+        Returns
+        -------
+        d : float | np.ndarray
+            Distance (in meters).
+        """
+        # NLOS parameters
+        A = 36.8
+        B = 43.8
+        C = 20
+        X = 5 * (num_walls - 1)
+
+        # self.fc is in MHz
+        fc_GHz = self.fc / 1e3
+
+        d = 10.**((PL - B - C * math.log10(fc_GHz / 5.) - X) / A)
+        return d
 
     def _calc_deterministic_path_loss_dB(  # type: ignore
             self,
